@@ -103,7 +103,14 @@ func Variants(samIn, refIn io.Reader, refFromFile bool, annoIn io.Reader, annoSu
 
 	go groupSamRecords(samIn, cSH, cSR, cReadDone, cErr)
 
-	_ = <-cSH
+	select {
+	case header := <-cSH:
+		if len(header.Refs()) == 0 {
+			return errors.New("no reference sequence (@SQ line) in the sam header")
+		}
+	case err := <-cErr:
+		return err
+	}
 
 	var wgAlign sync.WaitGroup
 	wgAlign.Add(threads)
